@@ -450,3 +450,8 @@ func ZZSymTime(prefix string) (Time, int) {
 func ZZRawDate(y, m, d int) Date {
 	return &date{year: y, month: m, day: d, format: DefaultDateFormat()}
 }
+
+// ZZRawDateFmt: the same with the notation the date was written in (`-` or `/`).
+func ZZRawDateFmt(y, m, d int, dashes bool) Date {
+	return &date{year: y, month: m, day: d, format: DateFormat{UseDashes: dashes}}
+}
